@@ -13,6 +13,11 @@
 //        {with, without replacement}, pickOne variants; each run partly repeated under the same seed
 //   drv_random --out F --mode sampling-rand --n N
 //        random runs mixing every call kind; runs re-played (fully / a prefix) under the same seed
+//   drv_random --out F --mode laws --seeds S
+//        argument conventions: pairs of draws under one seed differing in one argument (power-of-two
+//        factor / shift), for the RandomTools samplers and the randC() of the distribution classes;
+//        inverse-cdf picks with the rank of the uniform read under the same seed; randC() domain and
+//        qProb(pProb(x)) round trip
 //
 // The driver only produces and encodes observations; nothing is judged here.
 #include "tracer.h"
@@ -21,6 +26,12 @@
 #include <Bpp/Numeric/Random/ContingencyTableGenerator.h>
 #include <Bpp/Numeric/Random/RandomTools.h>
 #include <Bpp/Numeric/Stat/ContingencyTableTest.h>
+#include <Bpp/Numeric/Prob/BetaDiscreteDistribution.h>
+#include <Bpp/Numeric/Prob/ExponentialDiscreteDistribution.h>
+#include <Bpp/Numeric/Prob/GammaDiscreteDistribution.h>
+#include <Bpp/Numeric/Prob/GaussianDiscreteDistribution.h>
+#include <Bpp/Numeric/Prob/TruncatedExponentialDiscreteDistribution.h>
+#include <Bpp/Numeric/Prob/UniformDiscreteDistribution.h>
 
 #include <cmath>
 #include <memory>
@@ -599,6 +610,204 @@ static long samplingRand(Rng& rng, long n, const std::vector<uint64_t>& seeds)
   return sc;
 }
 
+
+// ---------------------------------------------------------------- argument conventions ("laws")
+static void quietSeed(uint64_t s) { bpp::RandomTools::setSeed(static_cast<std::mt19937::result_type>(s)); }
+
+// one draw of sampler s under seed sd; par as documented in spec/Random/ScaleLaw.tla (Decl)
+static double drawOf(const std::string& s, const std::vector<double>& par, uint64_t sd, std::string& how)
+{
+  double x = 0;
+  how = outcome<bpp::Exception>([&]() {
+    if (s == "rt.exp") { quietSeed(sd); x = bpp::RandomTools::randExponential(par[0]); }
+    else if (s == "rt.gauss") { quietSeed(sd); x = bpp::RandomTools::randGaussian(par[0], par[1]); }
+    else if (s == "rt.gamma") { quietSeed(sd); x = bpp::RandomTools::randGamma(par[0], par[1]); }
+    else if (s == "rt.unif") { quietSeed(sd); x = bpp::RandomTools::giveRandomNumberBetweenZeroAndEntry(par[0]); }
+    else if (s == "dd.exp") { bpp::ExponentialDiscreteDistribution d(3, par[0]); quietSeed(sd); x = d.randC(); }
+    else if (s == "dd.texp") { bpp::TruncatedExponentialDiscreteDistribution d(3, par[0], 64. / par[0]); quietSeed(sd); x = d.randC(); }
+    else if (s == "dd.gauss") { bpp::GaussianDiscreteDistribution d(3, par[0], par[1]); quietSeed(sd); x = d.randC(); }
+    else if (s == "dd.gamma") { bpp::GammaDiscreteDistribution d(3, par[0], par[1], 0.05, 0.05, true, par[2]); quietSeed(sd); x = d.randC(); }
+    else if (s == "dd.unif") { bpp::UniformDiscreteDistribution d(3, par[0], par[0] + par[1]); quietSeed(sd); x = d.randC(); }
+  });
+  return x;
+}
+
+// 4 * b / a when that is 1/4, 1/2, 1, 2 or 4 (relative tolerance tol), else 0
+static int ratioCode(double a, double b, double tol)
+{
+  static const int cs[] = {1, 2, 4, 8, 16};
+  if (!(a == a) || !(b == b) || a == 0.) return 0;
+  for (int c : cs)
+    if (std::fabs(4. * b - c * a) <= tol * std::fabs(c * a)) return c;
+  return 0;
+}
+
+struct SamplerDef
+{
+  const char* name;
+  std::vector<int> kinds; // 0 shape, 1 scale-like (mean/rate/sd/scale), 2 variance, 3 location
+};
+
+static long laws(Rng& rng, const std::vector<uint64_t>& seeds)
+{
+  long sc = 0;
+  const std::vector<SamplerDef> defs = {
+    {"rt.exp", {1}}, {"rt.gauss", {3, 2}}, {"rt.gamma", {0, 1}}, {"rt.unif", {1}}, {"dd.exp", {1}},
+    {"dd.texp", {1}}, {"dd.gauss", {3, 1}}, {"dd.gamma", {0, 1, 3}}, {"dd.unif", {3, 1}}};
+  static const double bases[] = {0.25, 0.5, 1., 1.5, 3., 5.};
+  static const double shapes[] = {0.5, 1., 2.5, 7.};
+  static const int f4s[] = {1, 2, 8, 16};
+  for (uint64_t sd : seeds)
+  {
+    for (const auto& def : defs)
+    {
+      reset();
+      ++sc;
+      std::string s = def.name, how;
+      auto basePar = [&](bool withLoc) {
+        std::vector<double> par;
+        for (int k : def.kinds)
+          par.push_back(k == 0 ? shapes[rng.below(4)] : k == 3 ? (withLoc ? (s == "dd.gamma" ? 0.5 * static_cast<double>(rng.below(3)) : -1. + 0.5 * static_cast<double>(rng.below(5))) : 0.) : bases[rng.below(6)]);
+        return par;
+      };
+      auto emitPair = [&](int arg, const char* key, double val4, double a, double b, double tol, const std::string& h1, const std::string& h2) {
+        Obj e;
+        e.kv("e", "Pair").kv("s", s).kv("arg", arg).kv(key, static_cast<long long>(val4)).kv("seed", static_cast<long long>(sd));
+        e.kv("code", (h1 == "ok" && h2 == "ok") ? ratioCode(a, b, tol) : -1);
+        tracer().emit(e);
+      };
+      for (size_t i = 0; i < def.kinds.size(); ++i)
+      {
+        int k = def.kinds[i];
+        if (k == 1 || k == 2)
+          for (int rep = 0; rep < 3; ++rep)
+            for (int f4 : f4s)
+            {
+              if (k == 2 && f4 != 1 && f4 != 16) continue;
+              std::vector<double> p1 = basePar(false), p2;
+              p2 = p1;
+              p2[i] = p1[i] * f4 / 4.;
+              std::string h1, h2;
+              double x1 = drawOf(s, p1, sd, h1), x2 = drawOf(s, p2, sd, h2);
+              if (h1 == "ok" && h2 == "ok" && x1 == 0. && x2 == 0.) continue; // no information
+              emitPair(static_cast<int>(i) + 1, "f", f4, x1, x2, 1e-12, h1, h2);
+            }
+        else if (k == 3)
+          for (int rep = 0; rep < 4; ++rep)
+          {
+            static const double ds[] = {0.25, 2., 0.5, 1.};
+            std::vector<double> p1 = basePar(true), p2;
+            p2 = p1;
+            double d = ds[rep];
+            if (s != "dd.gamma" && rng.coin()) d = -d;
+            p2[i] = p1[i] + d;
+            std::string h1, h2;
+            double x1 = drawOf(s, p1, sd, h1), x2 = drawOf(s, p2, sd, h2);
+            Obj e;
+            e.kv("e", "Pair").kv("s", s).kv("arg", static_cast<int>(i) + 1).kv("d", static_cast<long long>(d * 4)).kv("seed", static_cast<long long>(sd));
+            double tol = 1e-9 * std::max(1., std::max(std::fabs(x1), std::fabs(x2)) / std::fabs(d));
+            e.kv("code", (h1 == "ok" && h2 == "ok") ? ratioCode(d, x2 - x1, tol) : -1);
+            tracer().emit(e);
+          }
+      }
+      { // identical arguments
+        std::vector<double> p1 = basePar(true);
+        std::string h1, h2;
+        double x1 = drawOf(s, p1, sd, h1), x2 = drawOf(s, p1, sd, h2);
+        if (!(h1 == "ok" && h2 == "ok" && x1 == 0. && x2 == 0.)) emitPair(0, "f", 4, x1, x2, 0., h1, h2);
+      }
+    }
+    // picks by inverse cdf
+    reset();
+    ++sc;
+    for (int rep = 0; rep < 40; ++rep)
+    {
+      uint64_t sd2 = sd + static_cast<uint64_t>(rep) * 7919ULL;
+      std::vector<int> w = weightsFor(rng, 1 + rng.below(12)), cum;
+      int acc = 0;
+      for (int x : w) cum.push_back(acc += x);
+      long double tot = acc;
+      size_t what = rng.below(3);
+      size_t n = what == 1 ? rng.below(15) : 1;
+      std::vector<double> us;
+      quietSeed(sd2);
+      for (size_t i = 0; i < n; ++i) us.push_back(bpp::RandomTools::giveRandomNumberBetweenZeroAndEntry(1.0));
+      Arr rs, ties, outs;
+      for (double u : us)
+      {
+        long r = 0;
+        bool tie = false;
+        for (int c : cum)
+        {
+          if (static_cast<long double>(c) < static_cast<long double>(u) * tot) ++r;
+          if (static_cast<long double>(c) == static_cast<long double>(u) * tot) tie = true;
+        }
+        rs.add(r);
+        ties.add(tie);
+      }
+      std::string r, op;
+      quietSeed(sd2);
+      if (what == 0)
+      {
+        op = "cumSum";
+        std::vector<double> cd;
+        for (int c : cum) cd.push_back(static_cast<double>(c) / static_cast<double>(acc));
+        size_t o = 0;
+        r = outcome<bpp::Exception>([&]() { o = bpp::RandomTools::pickFromCumSum(cd); });
+        outs.add(enc(o));
+      }
+      else if (what == 1)
+      {
+        op = "multinom";
+        std::vector<size_t> o;
+        std::vector<double> wd = dbl(w);
+        r = outcome<bpp::Exception>([&]() { o = bpp::RandomTools::randMultinomial(n, wd); });
+        for (size_t x : o) outs.add(enc(x));
+      }
+      else
+      {
+        op = "pickW";
+        std::vector<int> src;
+        for (size_t i = 0; i < w.size(); ++i) src.push_back(10 + static_cast<int>(i));
+        std::vector<double> wd = dbl(w);
+        int o = -1;
+        const std::vector<int>& cs = src;
+        const std::vector<double>& cw = wd;
+        r = outcome<bpp::Exception>([&]() { o = bpp::RandomTools::pickOne(cs, cw); });
+        outs.add(o - 10);
+      }
+      Obj e;
+      e.kv("e", "Inv").kv("op", op).kv("cum", arrI(cum)).kv("r", rs).kv("tie", ties).kv("seed", static_cast<long long>(sd2));
+      if (r == "ok") e.kv("out", outs);
+      else e.kv("out", Arr().add(-1)).kv("raised", r);
+      tracer().emit(e);
+    }
+    // randC(): domain and qProb(pProb(x)) round trip
+    reset();
+    ++sc;
+    for (int rep = 0; rep < 36; ++rep)
+    {
+      static const char* cls[] = {"dd.exp", "dd.texp", "dd.gauss", "dd.gamma", "dd.unif", "dd.beta"};
+      std::string s = cls[rep % 6], how;
+      double a = bases[rng.below(6)], b = bases[rng.below(6)], sh = shapes[rng.below(4)], x = 0, q = 0, p = 0;
+      bool dom = false;
+      quietSeed(sd + static_cast<uint64_t>(rep) * 104729ULL);
+      how = outcome<bpp::Exception>([&]() {
+        if (s == "dd.exp") { bpp::ExponentialDiscreteDistribution d(3, a); x = d.randC(); dom = x >= 0.; p = d.pProb(x); q = d.qProb(p); }
+        else if (s == "dd.texp") { bpp::TruncatedExponentialDiscreteDistribution d(3, a, 4. * b); x = d.randC(); dom = x >= 0. && x <= 4. * b; p = d.pProb(x); q = d.qProb(p); }
+        else if (s == "dd.gauss") { bpp::GaussianDiscreteDistribution d(3, a - 1., b); x = d.randC(); dom = std::isfinite(x); p = d.pProb(x); q = d.qProb(p); }
+        else if (s == "dd.gamma") { bpp::GammaDiscreteDistribution d(3, sh, b, 0.05, 0.05, true, a); x = d.randC(); dom = x >= a; p = d.pProb(x); q = d.qProb(p); }
+        else if (s == "dd.unif") { bpp::UniformDiscreteDistribution d(3, a - 1., a - 1. + b); x = d.randC(); dom = x >= a - 1. && x <= a - 1. + b; p = d.pProb(x); q = d.qProb(p); }
+        else { bpp::BetaDiscreteDistribution d(3, sh, a); x = d.randC(); dom = x >= 0. && x <= 1.; p = d.pProb(x); q = d.qProb(p); }
+      });
+      bool skip = !(p > 1e-5 && p < 1. - 1e-5);
+      bool rt = std::fabs(q - x) <= 1e-3 * std::max(1., std::fabs(x));
+      tracer().emit(Obj().kv("e", "RandC").kv("s", s).kv("dom", how == "ok" && dom).kv("rt", how == "ok" && rt).kv("skip", how == "ok" && skip).kv("seed", static_cast<long long>(sd)));
+    }
+  }
+  return sc;
+}
+
 int main(int argc, char** argv)
 {
   std::string out = argStr(argc, argv, "--out", "");
@@ -624,6 +833,7 @@ int main(int argc, char** argv)
   else if (mode == "tables-rand") sc = tablesRand(rng, n, maxtot, seeds);
   else if (mode == "sampling-exh") sc = samplingExh(rng, seeds);
   else if (mode == "sampling-rand") sc = samplingRand(rng, n, seeds);
+  else if (mode == "laws") sc = laws(rng, seeds);
   else
   {
     fprintf(stderr, "drv_random: unknown mode\n");
